@@ -622,6 +622,7 @@ def _tokenize(readline: Callable[[], str]) -> Iterator[TokenInfo]:
         state.move_next_line(readline)
 
         if state.end_progs:
+            state.continued = False  # a backslash continuation inside f-string braces ends with its line, too
             yield from handle_end_progs(state)
 
         elif state.parenlev == 0 and not state.continued:  # new statement
